@@ -126,6 +126,9 @@ def cms(repo, chk):
     forms += [Q(f'numpy.min(self.M[numpy.arange(self.depth), [{hname}(x, s, self.width) for s in self.hash_seeds]])'), Q(f'self.M[numpy.arange(self.depth), [{hname}(x, s, self.width) for s in self.hash_seeds]].min()'),
               Q(f'min(self.M[i][{hname}(x, s, self.width)] for i, s in enumerate(self.hash_seeds))'), Q(f'min([self.M[i][{hname}(x, s, self.width)] for i, s in enumerate(self.hash_seeds)])'),
               Q(f'min(self.M[i][{hname}(x, s, self.width)] for i, s in enumerate(self.hash_seeds[:self.depth]))'), Q(f'min([self.M[i][{hname}(x, s, self.width)] for i, s in enumerate(self.hash_seeds[:self.depth])])')]
+    for cell in ('self.M[r][c]', 'self.M[r, c]'):
+        for cols in (f'[{hname}(x, s, self.width) for s in self.hash_seeds]', f'[{hname}(x, self.hash_seeds[i], self.width) for i in range(self.depth)]'):
+            forms += [Q(f'min({cell} for r, c in enumerate({cols}))'), Q(f'min([{cell} for r, c in enumerate({cols})])'), Q(f'numpy.min([{cell} for r, c in enumerate({cols})])')]
     if rt in forms:
         chk.ok('C15.3', 'R15', query.site(rets[0]), ast.unparse(rets[0]), 'estimate = min over all rows of the cell addressed exactly as in the update (same hash, seed, width)')
     else:
@@ -133,7 +136,15 @@ def cms(repo, chk):
         txt = show(rt)
         if "'name', 'max'" in repr(rt) or 'numpy.max' in txt or 'mean' in txt or 'median' in txt or 'sum(' in txt:
             why = 'the estimate is not the row-wise minimum: it can exceed the true weight bound or fall below it - ' + why
-        chk.bad('C15.3', 'R15', query.site(rets[0]), ast.unparse(rets[0]), why + f'; found {txt[:200]}')
+        from ..terms import walk_term
+        uses_hash = any(isinstance(x, tuple) and len(x) >= 2 and x[0] == 'call' and isinstance(x[1], tuple) and str(x[1][-1]).split('.')[-1] == hname for x in walk_term(rt))
+        if not uses_hash:
+            # the update addresses its cells with the module's hash function; a query that computes the columns in another way (a vectorised
+            # re-implementation, other arithmetic) reads cells the update may not have written
+            chk.bad('C15.3', 'R15', query.site(rets[0]), ast.unparse(rets[0]), f'the query does not address its cells through {hname}, the function the update uses: a re-implementation of the hash (different integer width, '
+                    f'wrap-around, operator order) can point at other cells, so the estimate can fall below the true weight - ' + why + f'; found {txt[:160]}')
+        else:
+            chk.expect_term(rt, forms, 'C15.3', 'R15', query.site(rets[0]), ast.unparse(rets[0]), '', why + f'; found {txt[:200]}')
 
     # hash function: (uint32(hash(x)) + seed) % width
     hp = hashf.params
